@@ -24,6 +24,16 @@ SPECS = {
         explanation="every generated program+query is run on the implementation, on the machine model M and on the reference semantics S "
                     "(vm_compute); C<>S is a failing input of the property, C<>M a broken correspondence",
     ),
+    "C03": dict(
+        level="proof", props_deps=["Proofs/Promise.v", "Proofs/Trampoline.v"], model_deps=ENGINE_MODEL_DEPS, trusted=ENGINE_TRUSTED,
+        assumptions=["cut placements outside the property's quantifier (a cut nested in a non-top-level disjunction, in a then/else branch or under a left-nested conjunction) are not generated"],
+        explanation="as C01, over programs with cut in the placements the property names, \\+, once, ->, call/N, findall",
+    ),
+    "C04": dict(
+        level="proof", props_deps=["Proofs/Promise.v", "Proofs/Trampoline.v"], model_deps=ENGINE_MODEL_DEPS, trusted=ENGINE_TRUSTED,
+        assumptions=["only the Formal of error(Formal, Context) is compared"],
+        explanation="as C01, over programs with catch/3, throw/1 and built-in errors",
+    ),
     "C07": dict(
         level="proof",
         props_deps=["Proofs/ArithInt.v", "Gen/Arith_gen.v"],
